@@ -17,6 +17,7 @@ import itertools
 
 import exprio
 import graphcap
+import graphforms
 import vlib
 
 PROPS = "Props/C07.v"
@@ -35,7 +36,17 @@ RULE = ("P-correspondence: a case is (function, graph or grid shape or inner fra
         "Search: for every graph in scope and every set partition of its vertices (resp. every subset of "
         "border edges) the really posted non-primitive program with the pattern fixed is decided by z3 and compared "
         "with a plain-Python oracle (blocks connected, sizes as specified, every border edge separates); the node "
-        "posted by the primitive route is evaluated with the operator's defined meaning by the extracted model.")
+        "posted by the primitive route is evaluated with the operator's defined meaning by the extracted model.  "
+        "Hardened input classes (tie and search): graph forms (edges stored (larger, smaller), shuffled order, cycles stored "
+        "head-to-tail, parallel bundles, self-loops) and structured instances with 6-10 vertices (long paths / cycles, two "
+        "disjoint cycles, K5/K6/K33, wheels, prisms, Petersen, 7-vertex graphs with n+3..n+6 edges; graphforms.py) with "
+        "targeted partitions / border patterns (connected-block partitions, one vertex moved, one flag flipped); group_size "
+        "fully specified as mixed lists / tuples of ints and IntVars (block sizes of a connected partition, per-block and "
+        "shared variables), ints outside the small-int cache; is_border as Python True/False mixed with expressions, as "
+        "tuple / BoolArray1D; one-shot iterables (generator, iter, map, reversed, also nested as rows) for group_size / "
+        "is_border -- refused with TypeError or the program of the materialised value; histories: several calls on one "
+        "Solver with the same Graph object and the same group_size / is_border containers, the Graph extended by the caller "
+        "in between, arguments unchanged after every call.")
 TRUSTED = [
     "z3 as a decision procedure for the search only (never discharges an obligation)",
     "harness-side translation of cspuz expression trees to z3 terms (pC07.to_z3) and the recording of the posted program through the public Solver class (exprio.show_state)",
@@ -110,8 +121,9 @@ class Pool:
         self.bv = list(s.bool_array(4))
 
 
-def run_vg(g, shape, mk_gs):
-    """-> (request line, impl outcome)"""
+def run_vg(g, shape, mk_gs, wrap=None):
+    """-> (request line, impl outcome); wrap: the argument really passed is wrap(gs) (a one-shot iterable / another
+    container yielding the same items) while the request describes gs itself"""
     from cspuz import Solver, graph as cg
     from cspuz.array import IntArray2D
     s = Solver()
@@ -119,6 +131,8 @@ def run_vg(g, shape, mk_gs):
     gs = mk_gs(pool)
     st0 = exprio.show_state(s)
     req = "VG %s %s %s %s" % (graph_tok(g), "S-" if shape is None else "S %d %d" % shape, gs_tok(gs), st0)
+    if wrap is not None:
+        gs = wrap(gs)
 
     def call():
         kw = {}
@@ -134,7 +148,7 @@ def run_vg(g, shape, mk_gs):
     return req, vlib.guarded(call)
 
 
-def run_wb(g, mk_gs, mk_bd, ugp, cfg):
+def run_wb(g, mk_gs, mk_bd, ugp, cfg, wrap_gs=None, wrap_bd=None):
     from cspuz import Solver, graph as cg
     from cspuz.configuration import config
     s = Solver()
@@ -144,6 +158,10 @@ def run_wb(g, mk_gs, mk_bd, ugp, cfg):
     st0 = exprio.show_state(s)
     req = "WB %s %s %s %s %s %s" % (graph_tok(g), gs_tok(gs), bd_tok(bd),
                                     "N" if ugp is None else ("T" if ugp else "F"), "T" if cfg else "F", st0)
+    if wrap_gs is not None:
+        gs = wrap_gs(gs)
+    if wrap_bd is not None:
+        bd = wrap_bd(bd)
 
     def call():
         old = config.use_graph_division_primitive
@@ -160,6 +178,66 @@ def run_wb(g, mk_gs, mk_bd, ugp, cfg):
             config.use_graph_division_primitive = old
         return exprio.show_state(s)
     return req, vlib.guarded(call)
+
+
+def graph_snapshot(g):
+    return (g.num_vertices, list(g.edges), [list(l) for l in g.incident_edges])
+
+
+def run_history(g, mk_gs, mk_bd, plan, rng):
+    """a sequence of calls on the same Solver with the same Graph object and the same group_size / is_border containers.
+    plan: list of steps 'vg' | 'wbF' | 'wbT' | 'extend' (the caller adds an edge to the Graph; the is_border container is
+    rebuilt for the new edge count).  Each call's request starts from the state the previous call left.
+    -> [(kind, label, request or None, expected (if no request), impl outcome)]"""
+    from cspuz import Solver, graph as cg
+    s = Solver()
+    pool = Pool(s)
+    n, edges = g[0], list(g[1])
+    G = graphcap.mk_graph(n, edges)
+    gs = mk_gs(pool)
+    bd = None
+    out = []
+
+    def items(x):
+        return list(x) if isinstance(x, (list, tuple)) else (list(x.data) if hasattr(x, "data") else None)
+    for step in plan:
+        if step == "extend":
+            if n >= 1:
+                a, b = rng.randrange(n), rng.randrange(n)
+                G.add_edge(a, b)
+                edges.append((a, b))
+                bd = None
+            continue
+        if step != "vg" and bd is None:
+            bd = mk_bd(pool, len(edges))
+        st0 = exprio.show_state(s)
+        snap = (items(gs), items(bd) if bd is not None else None, graph_snapshot(G))
+        if step == "vg":
+            req = "VG %s S- %s %s" % (graph_tok((n, edges)), gs_tok(gs), st0)
+
+            def call():
+                r = cg.division_connected_variable_groups(s, graph=G, group_size=gs)
+                assert type(r).__name__ == "IntArray1D", type(r).__name__
+                return "F %s %s" % (exprio.show_list(r.data), exprio.show_state(s))
+        else:
+            ugp = step == "wbT"
+            req = "WB %s %s %s %s F %s" % (graph_tok((n, edges)), gs_tok(gs), bd_tok(bd), "T" if ugp else "F", st0)
+
+            def call():
+                r = cg.division_connected_variable_groups_with_borders(s, graph=G, group_size=gs, is_border=bd, use_graph_primitive=ugp)
+                assert r is None
+                return exprio.show_state(s)
+        io = vlib.guarded(call)
+        out.append(("history", (step, tuple(plan), n, tuple(edges)), req, None, io))
+        now = (items(gs), items(bd) if bd is not None else None, graph_snapshot(G))
+        same = (now[2] == snap[2] == graph_snapshot(graphcap.mk_graph(n, edges))
+                and all((a is None and b is None) or (a is not None and b is not None and len(a) == len(b) and all(x is y for x, y in zip(a, b)))
+                        for a, b in zip(now[:2], snap[:2])))
+        out.append(("args-unchanged", (step, tuple(plan), n, tuple(edges)), None, "unchanged",
+                    "unchanged" if same else "group_size / is_border / Graph modified by the call"))
+        if io[0] != "ok":
+            break
+    return out
 
 
 # ---------------------------------------------------------------- argument forms
@@ -200,6 +278,14 @@ def vg_size_forms(n, rng):
         ("arr1", lambda p: p.s.int_array(n, 1, n)),
         ("arr1-expr", lambda p: p.s.int_array(n, 0, n) + 1),
         ("arr1-holes", lambda p: IntArray1D(items(["none", "var", "expr"])(p))),
+        # fully specified mixed lists (no None): ints and variables / ints, variables and expressions; tuples of them
+        ("list-full-intvar", items(["int", "var"])),
+        ("list-full-mixed", items(["int", "var", "expr"])),
+        ("tuple-full-intvar", lambda p: tuple(items(["int", "var"])(p))),
+        ("tuple-mixed", lambda p: tuple(items(["none", "int", "var", "expr"])(p))),
+        # integers outside CPython's small-int cache, created at run time
+        ("int-large", lambda p: int(str(300 + n))),
+        ("list-large", lambda p: [rng.choice([None, int(str(257 + i)), int("-%d" % (6 + i))]) for i in range(n)]),
     ]
     bad = [
         ("short", lambda p: items(["none", "int"])(p)[:-1]),
@@ -237,6 +323,9 @@ def wb_size_forms(n, rng):
         ("tuple-holes", lambda p: tuple(items(["none", "int"])(p))),
         ("arr1", lambda p: p.s.int_array(n, 1, n)),
         ("arr1-holes", lambda p: IntArray1D(items(["none", "var", "expr"])(p))),
+        ("list-full-intvar", items(["int", "var"])),
+        ("tuple-full-mixed", lambda p: tuple(items(["int", "var", "expr"])(p))),
+        ("list-large", lambda p: [rng.choice([None, int(str(257 + i)), int("-%d" % (6 + i))]) for i in range(n)]),
     ]
     bad = [
         ("scalar-int", lambda p: 2), ("scalar-var", lambda p: p.iv[0]), ("scalar-bool", lambda p: p.bv[0]),
@@ -286,6 +375,9 @@ def wb_border_forms(m, rng):
         ("all-true", lambda p: [True] * m), ("all-false", lambda p: [False] * m),
         ("arr-expr", lambda p: ~p.s.bool_array(m)),
         ("arr-mixed", lambda p: BoolArray1D(items(["var", "not", "and"])(p))),
+        ("tuple-vars", lambda p: tuple(items(["var", "not"])(p))),
+        ("tuple-mixed", lambda p: tuple(items(["var", "not", "and", "or", "cmp", "true", "false"])(p))),
+        ("arr-consts", lambda p: BoolArray1D(items(["true", "false", "var"])(p))),
     ]
     bad = [
         ("short", lambda p: items(["var"])(p)[:-1] if m else [p.bv[0]]),
@@ -391,6 +483,57 @@ def gen_cases(ctx):
         yield "wb-graph", ((0, []), "none", "empty", ugp, cfg), (lambda ugp=ugp, cfg=cfg: run_wb((0, []), lambda p: None, lambda p: [], ugp, cfg))
         yield "wb-graph", ((0, []), "rows0", "empty", ugp, cfg), (lambda ugp=ugp, cfg=cfg: run_wb((0, []), lambda p: [], lambda p: [], ugp, cfg))
 
+    # --- graph forms: edges stored (larger, smaller) / shuffled, cycles stored head-to-tail, bundles, self-loops, and
+    #     structured instances beyond the exhaustive scope (both functions, a few argument forms each)
+    formed = [(n, graphforms.shuffled(rng, es)) for (n, es) in rng.sample(small, 120 if thorough else 50) if es]
+    formed += [(n, es) for (k, n, es) in graphforms.structured(rng, loops=True)]
+    formed += [(n, graphforms.shuffled(rng, es)) for (k, n, es) in graphforms.structured(rng, loops=True)][::2]
+    for g in formed:
+        n, m = g[0], len(g[1])
+        forms, _ = vg_size_forms(n, rng)
+        for nm, mk in [forms[0]] + rng.sample(forms[1:], 3):
+            yield "vg-graph-forms", (g, nm), (lambda g=g, mk=mk: run_vg(g, None, mk))
+        sf, _ = wb_size_forms(n, rng)
+        bf, _ = wb_border_forms(m, rng)
+        for _ in range(3):
+            (an, a), (bn, b), (ugp, cfg) = rng.choice(sf), rng.choice(bf), rng.choice(UGP)
+            yield "wb-graph-forms", (g, an, bn, ugp, cfg), (lambda g=g, a=a, b=b, ugp=ugp, cfg=cfg: run_wb(g, a, b, ugp, cfg))
+
+    # --- one-shot iterables (generator, iter, map, reversed, zip) and nested ones: the documented arguments are sequences,
+    #     so a call may refuse them (TypeError) -- it must never post something else than for the materialised value
+    def shot(kind):
+        return lambda x: graphforms.oneshot(kind, x)
+    for g in rng.sample(small, 60 if thorough else 25) + rand[:10]:
+        n, m = g[0], len(g[1])
+        forms, _ = vg_size_forms(n, rng)
+        lists = [f for f in forms if f[0].startswith(("list-", "tuple-"))]
+        nm, mk = rng.choice(lists)
+        k = rng.choice(graphforms.ONESHOT)
+        yield "oneshot:vg-graph", (g, nm, k), (lambda g=g, mk=mk, k=k: run_vg(g, None, mk, wrap=shot(k)))
+        sf, _ = wb_size_forms(n, rng)
+        bf, _ = wb_border_forms(m, rng)
+        (an, a) = rng.choice([f for f in sf if f[0].startswith(("list-", "tuple-", "same-"))])
+        (bn, b) = rng.choice([f for f in bf if f[0].startswith(("list-", "tuple-", "all-"))])
+        k = rng.choice(graphforms.ONESHOT)
+        (ugp, cfg) = rng.choice(UGP)
+        which = rng.choice(["gs", "bd", "both"])
+        yield "oneshot:wb-graph", (g, an, bn, ugp, cfg, k, which), (
+            lambda g=g, a=a, b=b, ugp=ugp, cfg=cfg, k=k, which=which:
+            run_wb(g, a, b, ugp, cfg, wrap_gs=shot(k) if which != "bd" else None, wrap_bd=shot(k) if which != "gs" else None))
+    for (h, w) in [(1, 1), (1, 3), (2, 2), (3, 2), (2, 4), (0, 2), (3, 0)]:
+        n = h * w
+
+        def rows(p, h=h, w=w, n=n):
+            return [[size_item(p, rng, max(n, 1), rng.choice(["none", "int", "var", "expr"])) for _ in range(w)] for _ in range(h)]
+        for k in graphforms.ONESHOT:
+            # the rows given by a one-shot iterable; every row a one-shot iterable; both -- with and without shape=
+            for nm, wr in (("outer", shot(k)), ("inner", lambda x, k=k: [graphforms.oneshot(k, r) for r in x]),
+                           ("inner-tuple", lambda x, k=k: tuple(graphforms.oneshot(k, r) for r in x)),
+                           ("both", lambda x, k=k: graphforms.oneshot(k, [graphforms.oneshot(k, r) for r in x]))):
+                yield "oneshot:vg-grid-shape", ((h, w), k, nm), (lambda h=h, w=w, rows=rows, wr=wr: run_vg(None, (h, w), rows, wrap=wr))
+                if k in ("gen", "iter"):
+                    yield "oneshot:vg-grid-infer", ((h, w), k, nm), (lambda rows=rows, wr=wr: run_vg(None, None, rows, wrap=wr))
+
     # --- with borders, inner-frame form
     from cspuz.grid_frame import BoolInnerGridFrame
     for (h, w) in graphcap.grid_shapes(12 if not thorough else 16):
@@ -412,6 +555,31 @@ def gen_cases(ctx):
             for fn, fm in (("frame", frame), ("frame-custom", frame_custom), ("list", lambda p: [p.bv[0]])):
                 for (ugp, cfg) in (UGP[:4] if sn.startswith("arr2") and fn != "list" else [rng.choice(UGP)]):
                     yield "wb-frame", ((h, w), sn, fn, ugp, cfg), (lambda sm=sm, fm=fm, ugp=ugp, cfg=cfg: run_wb(None, sm, fm, ugp, cfg))
+
+
+def gen_histories(ctx):
+    """call sequences on one Solver / Graph object / argument containers (see run_history)"""
+    rng = ctx.rng
+    small = [g for g in graphcap.all_multigraphs(4, 4) if g[0] >= 2]
+    graphs = rng.sample(small, 80 if ctx.thorough else 30)
+    graphs = [(n, graphforms.shuffled(rng, es) if i % 2 else es) for i, (n, es) in enumerate(graphs)]
+    graphs += [graphcap.random_multigraph(rng, 7, loops=(i % 3 == 0)) for i in range(40 if ctx.thorough else 15)]
+    graphs += [(n, es) for (k, n, es) in graphforms.structured(rng, loops=True)][::3]
+    plans = [["vg", "vg"], ["vg", "wbF"], ["wbF", "vg"], ["wbT", "wbF"], ["wbF", "wbF"], ["vg", "extend", "vg"],
+             ["vg", "extend", "wbF"], ["wbF", "extend", "wbF"], ["wbT", "extend", "wbT"], ["wbF", "extend", "vg", "extend", "wbT"]]
+    for i, g in enumerate(graphs):
+        n = g[0]
+        if n < 1:
+            continue
+        sf, _ = wb_size_forms(n, rng)
+        (an, a) = rng.choice([f for f in sf if f[0] != "none"])
+
+        def mk_bd(pool, m):
+            bf, _ = wb_border_forms(m, rng)
+            return rng.choice(bf)[1](pool)
+        plan = plans[i % len(plans)]
+        ctx.count("history:" + "-".join(plan))
+        yield run_history(g, a, mk_bd, plan, rng)
 
 
 def spec_validation(ctx, m):
@@ -441,16 +609,28 @@ def spec_validation(ctx, m):
 def correspond(ctx):
     m = ctx.model("C07")
     spec_validation(ctx, m)
-    reqs, meta = [], []
+    reqs, meta, side = [], [], []
     for kind, label, thunk in gen_cases(ctx):
         req, out = thunk()
         reqs.append(req)
         meta.append((kind, label, out))
+    for hist in gen_histories(ctx):
+        for (kind, label, req, want, out) in hist:
+            if req is None:
+                side.append((kind, label, want, out))
+            else:
+                reqs.append(req)
+                meta.append((kind, label, out))
     replies = m.batch(reqs)
     for (kind, label, out), rep in zip(meta, replies):
         mo = parse_reply(rep)
+        if kind.startswith("oneshot:") and out == ("err", "TypeError"):
+            ctx.count("oneshot:refused(TypeError)")
+            out = mo                 # refusing a one-shot iterable is allowed; anything else must equal the materialised form
         ctx.count("outcome:" + (out[1] if out[0] == "err" else "ok"))
         ctx.corr(kind, repr(label), mo, out)
+    for (kind, label, want, out) in side:
+        ctx.corr(kind, repr(label), want, out)
 
 
 # ---------------------------------------------------------------- search: z3 on the posted program
@@ -600,9 +780,88 @@ def oracle_borders(n, edges, bd, sizes, domains):
     return sizes_ok(bs, sizes, domains)
 
 
-def search_size_forms(n, rng, scalar_ok=True):
+def rgs(labels):
+    """canonical form of a partition given by labels (restricted growth string)"""
+    seen = {}
+    return tuple(seen.setdefault(l, len(seen)) for l in labels)
+
+
+def connected_partition(rng, n, edges, keep=None):
+    """a random partition of the vertices into connected blocks (random spanning forest with some tree edges cut)"""
+    keep = rng.choice([0.3, 0.6, 0.85]) if keep is None else keep
+    parent = list(range(n))
+
+    def find(x):
+        while parent[x] != x:
+            x = parent[x]
+        return x
+    order = list(range(len(edges)))
+    rng.shuffle(order)
+    for k in order:
+        a, b = edges[k]
+        ra, rb = find(a), find(b)
+        if ra != rb and rng.random() < keep:
+            parent[ra] = rb
+    return rgs([find(v) for v in range(n)])
+
+
+def targeted_partitions(rng, n, edges, count):
+    """partitions around the boundary of the property: connected-block partitions, the same with one vertex moved to
+    another / a new block (often disconnecting a block or changing two sizes), one block, all singletons"""
+    out = {rgs([0] * n), rgs(range(n))}
+    for _ in range(count * 3):
+        if len(out) >= count + 2:
+            break
+        lab = list(connected_partition(rng, n, edges))
+        if rng.random() < 0.45 and n >= 2:
+            v = rng.randrange(n)
+            lab[v] = rng.choice([l for l in range(max(lab) + 2) if l != lab[v]])
+        out.add(rgs(lab))
+    return sorted(out)
+
+
+def search_size_forms(n, rng, scalar_ok=True, edges=None):
     """(name, python argument maker(solver) -> (arg, sizes spec, domains))"""
     out = [("none", lambda s: (None, [None] * n, {}))]
+    if edges is not None:
+        # fully specified lists (no None): the block sizes of a connected partition, given as ints, or as a mix of ints and
+        # IntVars (one variable per block / one shared variable), sometimes with one entry off by one
+        def full_ints(s):
+            lab = connected_partition(rng, n, edges)
+            l = [lab.count(x) for x in lab]
+            if rng.random() < 0.3:
+                k = rng.randrange(n)
+                l[k] = max(1, l[k] + rng.choice([-1, 1]))
+            full_ints.partition = lab           # callers that sample partitions add this one
+            return list(l), l, {}
+        out.append(("list-full-ints", full_ints))
+
+        def full_intvar(s):
+            lab = connected_partition(rng, n, edges)
+            sizes = [lab.count(x) for x in lab]
+            shared = s.int_var(1, n)
+            per_block = {}
+            dom = {shared.id: (1, n)}
+            arg, spec = [], []
+            for v in range(n):
+                c = rng.random()
+                if c < 0.45:
+                    arg.append(sizes[v]), spec.append(sizes[v])
+                elif c < 0.8:
+                    if lab[v] not in per_block:
+                        lo = rng.randint(1, sizes[v])
+                        x = s.int_var(lo, rng.randint(sizes[v], n))
+                        per_block[lab[v]] = x
+                        dom[x.id] = (x.lo, x.hi)
+                    x = per_block[lab[v]]
+                    arg.append(x), spec.append(("v", x.id))
+                else:
+                    arg.append(shared), spec.append(("v", shared.id))
+            if rng.random() < 0.5:
+                arg = tuple(arg)
+            full_intvar.partition = lab
+            return arg, spec, dom
+        out.append(("list-full-intvar", full_intvar))
     if scalar_ok:
         for k in sorted({1, 2, 3, n}):
             out.append(("const%d" % k, lambda s, k=k: (k, [k] * n, {})))
@@ -661,6 +920,213 @@ def posted(ctx, what, detail, thunk):
     return False, None
 
 
+def flag_value(e, asg):
+    """value of a caller-side expression (is_border item / size) under asg: variable id -> value (plain Python)"""
+    from cspuz.expr import BoolVar, IntVar
+    if isinstance(e, (bool, int)):
+        return e
+    if isinstance(e, (BoolVar, IntVar)):
+        return asg[e.id]
+    a = [flag_value(x, asg) for x in e.operands]
+    o = e.op.name
+    f = {"NOT": lambda: not a[0], "AND": lambda: all(a), "OR": lambda: any(a), "IFF": lambda: a[0] == a[1],
+         "XOR": lambda: a[0] != a[1], "IMP": lambda: (not a[0]) or a[1], "BOOL_CONSTANT": lambda: a[0],
+         "INT_CONSTANT": lambda: a[0], "EQ": lambda: a[0] == a[1], "NE": lambda: a[0] != a[1], "LT": lambda: a[0] < a[1],
+         "LE": lambda: a[0] <= a[1], "GT": lambda: a[0] > a[1], "GE": lambda: a[0] >= a[1], "ADD": lambda: sum(a),
+         "SUB": lambda: a[0] - sum(a[1:]), "NEG": lambda: -a[0], "IF": lambda: a[1] if a[0] else a[2]}
+    return f[o]()
+
+
+def search_border_expressions(ctx):
+    from cspuz import Solver, graph as cg
+    from cspuz.array import BoolArray1D, IntArray1D
+    from cspuz.expr import BoolVar
+    rng = ctx.rng
+    small = [g for g in graphcap.all_multigraphs(4, 4) if 1 <= len(g[1])]
+    graphs = rng.sample(small, 90 if ctx.thorough else (50 if ctx.deep else 30))
+    graphs = [(n, graphforms.shuffled(rng, es) if i % 2 else es) for i, (n, es) in enumerate(graphs)]
+    graphs += [graphcap.random_multigraph(rng, 6, loops=(i % 4 == 0)) for i in range(40 if ctx.thorough else 14)]
+    graphs += [(n, es) for (k, n, es) in graphforms.structured(rng, loops=True) if len(es) <= 12][::(2 if ctx.thorough else 5)]
+    for (n, edges) in graphs:
+        m = len(edges)
+        if m == 0:
+            continue
+        s = Solver()
+        pool = Pool(s)
+        callers = list(s.variables)
+        # a target pattern (the cut of a connected partition, maybe one flag flipped) spelled with constants and expressions
+        lab = connected_partition(rng, n, edges)
+        target = [lab[a] != lab[b] for (a, b) in edges]
+        if rng.random() < 0.4:
+            j = rng.randrange(m)
+            target[j] = not target[j]
+        style = rng.choice(["consts", "mostly-consts", "exprs"])
+        bd = []
+        for b in target:
+            if style == "consts" or (style == "mostly-consts" and rng.random() < 0.7):
+                bd.append(bool(b))
+            else:
+                bd.append(border_item(pool, rng, rng.choice(["var", "not", "and", "or", "cmp", "true", "false"])))
+        sizes = [lab.count(x) for x in lab]
+        spec = [rng.choice([None, None, sizes[v], sizes[v], rng.randint(1, n)]) for v in range(n)]
+        cont_b, cont_s = rng.choice(["list", "tuple", "array"]), rng.choice(["list", "tuple", "array", "none"])
+        bd_arg = {"list": bd, "tuple": tuple(bd), "array": BoolArray1D(list(bd))}[cont_b]
+        if cont_s == "none":
+            spec = [None] * n
+        gs_arg = {"list": list(spec), "tuple": tuple(spec), "array": IntArray1D(list(spec)), "none": None}[cont_s]
+        det = {"function": "division_connected_variable_groups_with_borders", "n": n, "edges": edges,
+               "group_size": [repr(x) for x in spec], "group_size_container": cont_s, "is_border_container": cont_b,
+               "is_border_trees": exprio.show_list(bd), "caller_declarations": exprio.show_state(s).split(" K ")[0]}
+        ok, _ = posted(ctx, "wb-expr:%d:%s" % (n, edges), dict(det, use_graph_primitive=False),
+                       lambda: cg.division_connected_variable_groups_with_borders(
+                           s, graph=graphcap.mk_graph(n, edges), group_size=gs_arg, is_border=bd_arg, use_graph_primitive=False))
+        if not ok:
+            continue
+        zp = Z3Prog(s)
+        seen = set()
+        for _ in range(1 if style == "consts" else 6):
+            val = [rng.random() < 0.5 if isinstance(v, BoolVar) else rng.randint(v.lo, v.hi) for v in callers]
+            if tuple(val) in seen:
+                continue
+            seen.add(tuple(val))
+            asg = {v.id: x for v, x in zip(callers, val)}
+            pat = [bool(flag_value(b, asg)) for b in bd]
+            want = oracle_borders(n, edges, pat, spec, {})
+            fixed = [(zp.zv[v.id] if x else zp.z3.Not(zp.zv[v.id])) if isinstance(v, BoolVar) else (zp.zv[v.id] == x) for v, x in zip(callers, val)]
+            got = zp.check(fixed)
+            ctx.prop_case("borders-expr", (n, tuple(edges), exprio.show_list(bd), tuple(map(repr, spec)), tuple(val)))
+            ctx.count("borders-expr:" + style)
+            if got != want:
+                ctx.violation("borders-expr:%d:%s:%s:%s:%s" % (n, edges, exprio.show_list(bd).replace(" ", ""), [repr(x) for x in spec], val),
+                              "satisfiability for is_border given as expressions / constants (caller variables fixed) differs from the specification",
+                              dict(det, caller_values=[int(x) if not isinstance(x, bool) else x for x in val],
+                                   is_border=[int(b) for b in pat], expected_sat=want, posted_program_sat=got))
+
+
+def search_histories(ctx):
+    """two calls on the same Solver with the same Graph object and the same group_size container; the Graph may be extended
+    by the caller in between.  The joint program must admit exactly the pairs (pattern for call 1, pattern for call 2) that
+    are each valid for the graph as it was at that call; the arguments must be unchanged afterwards."""
+    from cspuz import Solver, graph as cg
+    rng = ctx.rng
+    small = [g for g in graphcap.all_multigraphs(4, 4) if g[0] >= 2 and len(g[1]) >= 1]
+    graphs = rng.sample(small, 60 if ctx.thorough else (36 if ctx.deep else 20))
+    graphs = [(n, graphforms.shuffled(rng, es) if i % 2 else es) for i, (n, es) in enumerate(graphs)]
+    graphs += [graphcap.random_multigraph(rng, 5, loops=(i % 4 == 0)) for i in range(30 if ctx.thorough else 10)]
+    for gi, (n, edges) in enumerate(graphs):
+        if n < 2 or len(edges) > 7:
+            continue
+        plan = [("vg", "vg"), ("vg", "wb"), ("wb", "vg"), ("wb", "wb")][gi % 4]
+        extend = gi % 3 != 0
+        s = Solver()
+        G = graphcap.mk_graph(n, edges)
+        lab0 = connected_partition(rng, n, edges)
+        spec = [rng.choice([None, None, lab0.count(x), rng.randint(1, n)]) for x in lab0]
+        gs = list(spec)
+        det = {"function": "history", "plan": list(plan), "extend": extend, "n": n, "edges": edges, "group_size": [repr(x) for x in spec]}
+        steps = []          # (kind, edges at the time, ids or border variables)
+        cur = list(edges)
+
+        def do(kind):
+            if kind == "vg":
+                ids = cg.division_connected_variable_groups(s, graph=G, group_size=gs)
+                steps.append(("vg", list(cur), list(ids)))
+            else:
+                bd = s.bool_array(len(cur))
+                cg.division_connected_variable_groups_with_borders(s, graph=G, group_size=gs, is_border=bd, use_graph_primitive=False)
+                steps.append(("wb", list(cur), list(bd)))
+        ok, _ = posted(ctx, "history:%d:%s:%s:1" % (n, edges, plan), det, lambda: do(plan[0]))
+        if not ok:
+            continue
+        if extend:
+            a = rng.randrange(n)
+            b = (a + 1 + rng.randrange(n - 1)) % n
+            G.add_edge(a, b)
+            cur.append((a, b))
+            det["added_edge"] = [a, b]
+        ok, _ = posted(ctx, "history:%d:%s:%s:2" % (n, edges, plan), det, lambda: do(plan[1]))
+        if not ok:
+            continue
+        if not (len(gs) == len(spec) and all(x is y for x, y in zip(gs, spec))
+                and graph_snapshot(G) == graph_snapshot(graphcap.mk_graph(n, cur))):
+            ctx.violation("history-args:%d:%s:%s" % (n, edges, plan), "group_size list or Graph modified by the calls", det)
+        zp = Z3Prog(s)
+        for _ in range(12 if ctx.thorough else 8):
+            extra, want, shown = [], True, []
+            for (kind, es, vs) in steps:
+                if kind == "vg":
+                    lab = rng.choice(targeted_partitions(rng, n, es, 4))
+                    z = [zp.zv[v.id] for v in vs]
+                    extra += [(z[u] == z[v]) if lab[u] == lab[v] else (z[u] != z[v]) for u in range(n) for v in range(u + 1, n)]
+                    want = want and oracle_partition(n, es, lab, spec, {})
+                    shown.append(["partition", list(lab)])
+                else:
+                    lab = connected_partition(rng, n, es)
+                    pat = [lab[a] != lab[b] for (a, b) in es]
+                    if es and rng.random() < 0.4:
+                        j = rng.randrange(len(es))
+                        pat[j] = not pat[j]
+                    extra += [zp.zv[v.id] if b else zp.z3.Not(zp.zv[v.id]) for v, b in zip(vs, pat)]
+                    want = want and oracle_borders(n, es, pat, spec, {})
+                    shown.append(["is_border", [int(b) for b in pat]])
+            got = zp.check(extra)
+            ctx.prop_case("history", (n, tuple(cur), plan, extend, tuple(map(repr, spec)), repr(shown)))
+            ctx.count("history:%s-%s%s" % (plan[0], plan[1], "+extend" if extend else ""))
+            if got != want:
+                ctx.violation("history:%d:%s:%s:%s:%s" % (n, cur, plan, [repr(x) for x in spec], shown),
+                              "two calls on the same Solver / Graph object: the joint program is %s although the patterns are %s" % (
+                                  "satisfiable" if got else "unsatisfiable", "both valid" if want else "not both valid"),
+                              dict(det, patterns=shown, expected_sat=want, posted_program_sat=got))
+
+
+def search_oneshot(ctx):
+    """group_size / is_border handed over as one-shot iterables: the call refuses them (TypeError) or posts exactly what it
+    posts for the materialised value"""
+    from cspuz import Solver, graph as cg
+    rng = ctx.rng
+    graphs = rng.sample([g for g in graphcap.all_multigraphs(4, 4) if len(g[1]) >= 1], 24 if not ctx.thorough else 80)
+    shapes = [(1, 2), (2, 2), (2, 3), (3, 1)]
+
+    def run(f):
+        s = Solver()
+        r = vlib.guarded(f, s)
+        return ("ok", exprio.show_state(s)) if r[0] == "ok" else r
+    cases = []
+    for (n, edges) in graphs:
+        spec = [rng.choice([None, rng.randint(1, n)]) for _ in range(n)]
+        k = rng.choice(graphforms.ONESHOT)
+        cases.append((("vg-graph", n, edges, spec, k),
+                      lambda s, n=n, edges=edges, spec=spec, w=None: cg.division_connected_variable_groups(s, graph=graphcap.mk_graph(n, edges), group_size=list(spec)),
+                      lambda s, n=n, edges=edges, spec=spec, k=k: cg.division_connected_variable_groups(s, graph=graphcap.mk_graph(n, edges), group_size=graphforms.oneshot(k, spec))))
+        which = rng.choice(["group_size", "is_border"])
+        cases.append((("wb-graph", n, edges, spec, k, which),
+                      lambda s, n=n, edges=edges, spec=spec: cg.division_connected_variable_groups_with_borders(
+                          s, graph=graphcap.mk_graph(n, edges), group_size=list(spec), is_border=list(s.bool_array(len(edges))), use_graph_primitive=False),
+                      lambda s, n=n, edges=edges, spec=spec, k=k, which=which: cg.division_connected_variable_groups_with_borders(
+                          s, graph=graphcap.mk_graph(n, edges),
+                          group_size=graphforms.oneshot(k, spec) if which == "group_size" else list(spec),
+                          is_border=graphforms.oneshot(k, list(s.bool_array(len(edges)))) if which == "is_border" else list(s.bool_array(len(edges))),
+                          use_graph_primitive=False)))
+    for (h, w) in shapes:
+        for k in graphforms.ONESHOT:
+            spec = [[rng.choice([None, rng.randint(1, h * w)]) for _ in range(w)] for _ in range(h)]
+            for nest in ("outer", "inner", "both"):
+                def wrapped(spec=spec, k=k, nest=nest):
+                    rows = [graphforms.oneshot(k, r) for r in spec] if nest != "outer" else [list(r) for r in spec]
+                    return graphforms.oneshot(k, rows) if nest != "inner" else rows
+                cases.append((("vg-grid", h, w, spec, k, nest),
+                              lambda s, h=h, w=w, spec=spec: cg.division_connected_variable_groups(s, shape=(h, w), group_size=[list(r) for r in spec]),
+                              lambda s, h=h, w=w, wrapped=wrapped: cg.division_connected_variable_groups(s, shape=(h, w), group_size=wrapped())))
+    for (label, f_list, f_one) in cases:
+        r1, r2 = run(f_list), run(f_one)
+        ctx.prop_case("oneshot", repr(label))
+        ctx.count("oneshot:%s:%s" % (label[0], r2[1] if r2[0] == "err" else "accepted"))
+        if r2 != r1 and r2 != ("err", "TypeError"):
+            ctx.violation("oneshot:%s" % (repr(label),),
+                          "a one-shot iterable argument is neither refused (TypeError) nor treated like the sequence it yields",
+                          {"function": "oneshot", "case": repr(label), "materialised_form": r1[1][:300], "oneshot_form": r2[1][:300]})
+
+
 def search(ctx):
     from cspuz import Solver, graph as cg
     rng = ctx.rng
@@ -682,11 +1148,16 @@ def search(ctx):
     else:
         part_graphs = small + rng.sample(five, 150 if deep else 60) + [graphcap.random_multigraph(rng, 5, loops=(i % 4 == 0)) for i in range(20)]
 
+    # graph forms: edges stored (larger, smaller) / in shuffled order, cycles stored head-to-tail, parallel bundles, loops
+    formed = [(n, graphforms.shuffled(rng, es)) for (n, es) in rng.sample([g for g in small if len(g[1]) >= 2], 120 if thorough else (60 if deep else 36))]
+    formed += [(n, es) for (k, n, es) in graphforms.structured(rng, loops=True) if n <= 5]
+    part_graphs = part_graphs + formed
+
     # ---- (a) partitions, graph form
     for gi, (n, edges) in enumerate(part_graphs):
         if enough():
             break
-        forms = search_size_forms(n, rng)
+        forms = search_size_forms(n, rng, edges=edges)
         if not thorough:
             forms = [forms[0]] + rng.sample(forms[1:], 3 if n <= 4 else 2)
         parts = list(set_partitions(n))
@@ -714,6 +1185,46 @@ def search(ctx):
                                   "realisability of a partition by the returned group ids differs from the specification",
                                   {"function": "division_connected_variable_groups", "n": n, "edges": edges, "form": nm,
                                    "group_size": [repr(x) for x in spec], "domains": {str(k): v for k, v in dom.items()},
+                                   "partition": list(labels), "expected_realisable": want, "posted_program_sat": got})
+
+    # ---- (a') structured instances beyond the exhaustive scope (6-8 vertices: long paths / cycles, two disjoint cycles,
+    #      K5, K33, wheels, prisms, dense 7-vertex graphs) with targeted partitions and the size forms above
+    struct = [(k, n, es) for (k, n, es) in graphforms.structured(rng) if 6 <= n <= 8]
+    if not (thorough or deep):
+        struct = [t for t in struct if t[0] in ("P8", "C8", "C3+C3-headtail") or rng.random() < 0.4]
+    for (k, n, edges) in struct:
+        if enough():
+            break
+        if rng.random() < 0.5:
+            edges = graphforms.shuffled(rng, edges)
+        forms = search_size_forms(n, rng, edges=edges)
+        whole = [f for f in forms if f[0] in ("const%d" % n, "scalar-var")]     # one block of everything is admitted
+        forms = [forms[0], rng.choice(whole)] + rng.sample([f for f in forms[1:] if f[0] != "const%d" % n], 4 if thorough else 2)
+        parts0 = targeted_partitions(rng, n, edges, 30 if thorough else 12)
+        for nm, mk in forms:
+            s = Solver()
+            arg, spec, dom = mk(s)
+            parts = parts0 + ([mk.partition] if getattr(mk, "partition", None) is not None and mk.partition not in parts0 else [])
+            ok, ids = posted(ctx, "vg-graph:%d:%s:%s" % (n, edges, nm),
+                             {"function": "division_connected_variable_groups", "n": n, "edges": edges, "form": nm,
+                              "group_size": [repr(x) for x in spec]},
+                             lambda: cg.division_connected_variable_groups(s, graph=graphcap.mk_graph(n, edges), group_size=arg))
+            if not ok:
+                continue
+            zp = Z3Prog(s)
+            zid = [zp.zv[v.id] for v in ids]
+            ctx.count("search:structured:" + k)
+            for labels in parts:
+                extra = [(zid[u] == zid[v]) if labels[u] == labels[v] else (zid[u] != zid[v])
+                         for u in range(n) for v in range(u + 1, n)]
+                got = zp.check(extra)
+                want = oracle_partition(n, edges, labels, spec, dom)
+                ctx.prop_case("partition-structured", (n, tuple(edges), nm, tuple(map(repr, spec)), labels))
+                if got != want:
+                    ctx.violation("partition:%d:%s:%s:%s" % (n, edges, [repr(x) for x in spec], list(labels)),
+                                  "realisability of a partition by the returned group ids differs from the specification",
+                                  {"function": "division_connected_variable_groups", "n": n, "edges": edges, "form": nm,
+                                   "group_size": [repr(x) for x in spec], "domains": {str(k_): v for k_, v in dom.items()},
                                    "partition": list(labels), "expected_realisable": want, "posted_program_sat": got})
 
     # ---- (b) partitions, grid form (ids come back as a 2-D array)
@@ -767,13 +1278,15 @@ def search(ctx):
         bgraphs += [g for g in five if len(g[1]) <= 5] + [graphcap.random_multigraph(rng, 6) for _ in range(80)]
     else:
         bgraphs += rng.sample(five, 60 if deep else 25) + [graphcap.random_multigraph(rng, 5, loops=(i % 4 == 0)) for i in range(25)]
+    bgraphs += [(n, graphforms.shuffled(rng, es)) for (n, es) in rng.sample([g for g in small if 2 <= len(g[1]) <= 4], 80 if thorough else (40 if deep else 24))]
+    bgraphs += [(n, es) for (k, n, es) in graphforms.structured(rng, loops=True) if n <= 5]
     bgraphs = [g for g in bgraphs if len(g[1]) <= 7]
     gd_reqs, gd_meta = [], []
     for gi, (n, edges) in enumerate(bgraphs):
         if len(ctx.violations) >= 12:
             break
         m = len(edges)
-        forms = search_size_forms(n, rng, scalar_ok=False)
+        forms = search_size_forms(n, rng, scalar_ok=False, edges=edges)
         if not thorough:
             forms = [forms[0]] + rng.sample(forms[1:], 2 if n <= 4 else 1)
         for nm, mk in forms:
@@ -816,6 +1329,58 @@ def search(ctx):
                     if prim is not None:
                         gd_reqs.append("GD %s %s" % (prim, " ".join("1" if b else "0" for b in pat)))
                         gd_meta.append((n, edges, pat, spec, want))
+
+    # ---- (c') borders on structured instances (6-8 vertices) with targeted patterns: the cut of a connected partition
+    #      (always exact), the same with one flag flipped (an extra border inside a block / a missing border)
+    for (k, n, edges) in [t for t in graphforms.structured(rng) if 6 <= t[1] <= 8 and len(t[2]) <= 14][::(1 if thorough else (2 if deep else 3))]:
+        if len(ctx.violations) >= 12:
+            break
+        if rng.random() < 0.5:
+            edges = graphforms.shuffled(rng, edges)
+        m = len(edges)
+        forms = search_size_forms(n, rng, scalar_ok=False, edges=edges)
+        forms = [forms[0]] + rng.sample(forms[1:], 3 if thorough else 1)
+        pats = {tuple([False] * m), tuple([True] * m)}
+        for _ in range(24 if thorough else 10):
+            lab = connected_partition(rng, n, edges)
+            pat = [lab[a] != lab[b] for (a, b) in edges]
+            if rng.random() < 0.5:
+                j = rng.randrange(m)
+                pat[j] = not pat[j]
+            pats.add(tuple(pat))
+        for nm, mk in forms:
+            s = Solver()
+            bd = s.bool_array(m)
+            arg, spec, dom = mk(s)
+            det = {"function": "division_connected_variable_groups_with_borders", "n": n, "edges": edges, "form": nm,
+                   "group_size": [repr(x) for x in spec]}
+            ok, _ = posted(ctx, "wb-graph:%d:%s:%s" % (n, edges, nm), dict(det, use_graph_primitive=False),
+                           lambda: cg.division_connected_variable_groups_with_borders(
+                               s, graph=graphcap.mk_graph(n, edges), group_size=arg, is_border=bd, use_graph_primitive=False))
+            if not ok:
+                continue
+            zp = Z3Prog(s)
+            zb = [zp.zv[v.id] for v in bd]
+            for pat in sorted(pats):
+                got = zp.check([zb[j] if pat[j] else zp.z3.Not(zb[j]) for j in range(m)])
+                want = oracle_borders(n, edges, pat, spec, dom)
+                ctx.prop_case("borders-structured", (n, tuple(edges), nm, tuple(map(repr, spec)), pat))
+                if got != want:
+                    ctx.violation("borders:%d:%s:%s:%s" % (n, edges, [repr(x) for x in spec], [int(b) for b in pat]),
+                                  "satisfiability for a fixed is_border pattern differs from the specification",
+                                  {"function": "division_connected_variable_groups_with_borders", "n": n, "edges": edges,
+                                   "group_size": [repr(x) for x in spec], "domains": {str(k_): v for k_, v in dom.items()},
+                                   "is_border": [int(b) for b in pat], "expected_sat": want, "posted_program_sat": got})
+
+    # ---- (c'') is_border given as expressions / Python True, False over the caller's variables, in every container kind;
+    #      group_size as list / tuple / IntArray1D: the caller's variables are fixed, the pattern is the value of the flags
+    if not enough():
+        search_border_expressions(ctx)
+    # ---- (h) histories and (o) one-shot iterables
+    if not enough():
+        search_histories(ctx)
+    if not enough():
+        search_oneshot(ctx)
 
     # ---- (d) borders, inner-frame form: the frame variable -> cell pair map is written independently here
     from cspuz.grid_frame import BoolInnerGridFrame
@@ -907,6 +1472,69 @@ def replay(ctx, rp):
                 out.append(int(r)), spec.append(int(r))
         return out, spec, dom
     s = Solver()
+    if "is_border_trees" in d and "caller_values" in d:
+        # is_border given as expressions / constants over the caller's variables (search_border_expressions)
+        from cspuz.array import BoolArray1D, IntArray1D
+        from cspuz.expr import BoolVar
+        Pool(s)
+        callers = list(s.variables)
+        n, edges = d["n"], [tuple(e) for e in d["edges"]]
+        toks = d["is_border_trees"].strip()[1:-1].split()
+        bd, depth, cur = [], 0, []
+        for t in toks:
+            cur.append(t)
+            depth += (t == "(") - (t == ")")
+            if depth == 0:
+                bd.append(exprio.parse(" ".join(cur), s.variables))
+                cur = []
+        spec = [None if r == "None" else int(r) for r in d["group_size"]]
+        bd_arg = {"list": bd, "tuple": tuple(bd), "array": BoolArray1D(list(bd))}[d["is_border_container"]]
+        gs_arg = {"list": list(spec), "tuple": tuple(spec), "array": IntArray1D(list(spec)), "none": None}[d["group_size_container"]]
+        r = vlib.guarded(lambda: cg.division_connected_variable_groups_with_borders(
+            s, graph=graphcap.mk_graph(n, edges), group_size=gs_arg, is_border=bd_arg, use_graph_primitive=False))
+        if r[0] == "err":
+            print("call raises", r[1])
+            return 1
+        zp = Z3Prog(s)
+        val = d["caller_values"]
+        asg = {v.id: x for v, x in zip(callers, val)}
+        pat = [bool(flag_value(b, asg)) for b in bd]
+        got = zp.check([(zp.zv[v.id] if x else zp.z3.Not(zp.zv[v.id])) if isinstance(v, BoolVar) else (zp.zv[v.id] == x) for v, x in zip(callers, val)])
+        want = oracle_borders(n, edges, pat, spec, {})
+        print("posted program sat:", got, " specification:", want, " is_border values:", [int(b) for b in pat])
+        return 1 if got != want else 0
+    if d.get("function") == "history" and "patterns" in d:
+        n, edges = d["n"], [tuple(e) for e in d["edges"]]
+        spec = [None if r == "None" else int(r) for r in d["group_size"]]
+        gs = list(spec)
+        G = graphcap.mk_graph(n, edges)
+        cur, steps = list(edges), []
+        for i, kind in enumerate(d["plan"]):
+            if i == 1 and d.get("added_edge"):
+                G.add_edge(*d["added_edge"])
+                cur.append(tuple(d["added_edge"]))
+            if kind == "vg":
+                steps.append(("vg", list(cur), list(cg.division_connected_variable_groups(s, graph=G, group_size=gs))))
+            else:
+                bd = s.bool_array(len(cur))
+                cg.division_connected_variable_groups_with_borders(s, graph=G, group_size=gs, is_border=bd, use_graph_primitive=False)
+                steps.append(("wb", list(cur), list(bd)))
+        zp = Z3Prog(s)
+        extra, want = [], True
+        for (kind, es, vs), (what, pat) in zip(steps, d["patterns"]):
+            if kind == "vg":
+                z = [zp.zv[v.id] for v in vs]
+                extra += [(z[u] == z[v]) if pat[u] == pat[v] else (z[u] != z[v]) for u in range(n) for v in range(u + 1, n)]
+                want = want and oracle_partition(n, es, pat, spec, {})
+            else:
+                extra += [zp.zv[v.id] if b else zp.z3.Not(zp.zv[v.id]) for v, b in zip(vs, pat)]
+                want = want and oracle_borders(n, es, pat, spec, {})
+        got = zp.check(extra)
+        print("joint program sat:", got, " specification:", want)
+        return 1 if got != want else 0
+    if d.get("function") in ("history", "oneshot"):
+        print("re-run ./check C07 for this input class (call sequence / one-shot iterable); the input is printed above")
+        return 0
     if "raised" in d:
         from cspuz.array import IntArray2D
         from cspuz.grid_frame import BoolInnerGridFrame
